@@ -2,7 +2,8 @@
 # Hand-build of /repo/crypto/libsodium-fork (no autotools in the sandbox). See DESIGN.md App. B.
 set -euo pipefail
 REPO=${VERIF_REPO:-/repo}
-OUT=${VERIF_OUTDIR:-/verif/build}/libsodium
+V=$(cd "$(dirname "${BASH_SOURCE[0]}")/.." && pwd)
+OUT=${VERIF_OUTDIR:-$V/build}/libsodium
 SRC=$REPO/crypto/libsodium-fork/src
 H=$(cd "$SRC" && find . -type f \( -name '*.c' -o -name '*.h' -o -name '*.in' \) -print0 | sort -z | xargs -0 sha256sum | sha256sum | cut -d' ' -f1)
 if [ -f "$OUT/lib/libsodium.a" ] && [ "$(cat $OUT/srchash 2>/dev/null)" = "$H" ]; then exit 0; fi
